@@ -408,6 +408,46 @@ func H02Unit() {
 	vndAssert(m != nil && m.Value == string([]byte{v1}), "metadata-lookup")
 }
 
+// H02UnitLine: one Unit line with three key=value fields after an earlier line that already
+// declared one of them (symbolic position): the repeated pair is ignored, every other pair
+// of the line is recorded, in order.
+func H02UnitLine() {
+	rep := vndChoice("repeated-field", 4) // 3 = none of them was declared before
+	fields := []string{"a=1", "b=2", "c=3"}
+	text := []byte{}
+	if rep < 3 {
+		text = append(text, ("Unit u " + fields[rep] + "\n")...)
+	} else {
+		text = append(text, "Unit v a=1\n"...)
+	}
+	text = append(text, "Unit u a=1 b=2 c=3\n"...)
+	r := NewReader(bytes.NewReader(text), "f")
+	got := ""
+	for r.Scan() {
+		switch rec := r.Result().(type) {
+		case *UnitMetadata:
+			_, ln := rec.Pos()
+			if ln == 2 {
+				got += rec.Unit + " " + rec.Key + "=" + rec.Value + ";"
+			}
+		case *SyntaxError:
+			vndAssert(false, "no-syntax-error-for-a-repeated-pair")
+		}
+	}
+	vndReach("h02:unit-line")
+	want := ""
+	for k, f := range fields {
+		if k != rep {
+			want += "u " + f + ";"
+		}
+	}
+	vndAssert(got == want, "every-new-pair-of-the-line-is-recorded")
+	for _, f := range fields {
+		m := r.Units().Get("u", f[:1])
+		vndAssert(m != nil && m.Value == f[2:], "metadata-lookup")
+	}
+}
+
 // H02UnitMalformed: fields without '=' or with an empty key.
 func H02UnitMalformed() {
 	n := vndParam("len")
